@@ -57,6 +57,10 @@ type lcall struct {
 	ErrID int    `json:"err_id,omitempty"` // id of the failed invocation whose result this call returned
 	OwnPanic bool `json:"own_panic,omitempty"`
 	NilChan  bool `json:"nil_chan,omitempty"`
+
+	ch  <-chan otter.RefreshResult[int, int]
+	bch <-chan []otter.RefreshResult[int, int]
+	own *atomic.Int32
 }
 
 type burstCfg struct {
@@ -318,13 +322,13 @@ func (b *burst) worker(w int, rng *core.Rng) {
 				lc.Call = b.now()
 				ch := b.cache.Refresh(ctx, keys[0], ld)
 				lc.Ret = b.now()
-				b.awaitRefresh(&lc, ch, nil, &own)
+				lc.ch, lc.own, lc.NilChan = ch, &own, ch == nil
 			case 3:
 				lc.Kind, lc.Keys = "BulkRefresh", keys
 				lc.Call = b.now()
 				ch := b.cache.BulkRefresh(ctx, keys, ld)
 				lc.Ret = b.now()
-				b.awaitRefresh(&lc, nil, ch, &own)
+				lc.bch, lc.own, lc.NilChan = ch, &own, ch == nil
 			case 4:
 				vctr++
 				lc.Kind, lc.Keys, lc.Val = "Set", keys[:1], (w+1)*10_000_000+vctr
@@ -354,40 +358,42 @@ func (b *burst) worker(w int, rng *core.Rng) {
 	}
 }
 
-// awaitRefresh waits for the single message of a manual refresh. A refresh whose own loader
-// panicked re-raises inside its executor task and promises nothing, so it is not awaited.
-func (b *burst) awaitRefresh(lc *lcall, ch <-chan otter.RefreshResult[int, int], bch <-chan []otter.RefreshResult[int, int], own *atomic.Int32) {
-	if ch == nil && bch == nil {
-		lc.NilChan = true
-		return
-	}
-	deadline := time.After(20 * time.Second)
-	tick := time.NewTicker(200 * time.Microsecond)
-	defer tick.Stop()
-	for {
-		select {
-		case m := <-ch:
-			lc.Msgs++
-			lc.Res = map[int]int{m.Key: m.Value}
-			lc.Err = errKind(m.Err)
-			return
-		case ms := <-bch:
-			lc.Msgs++
-			lc.Res = map[int]int{}
-			for _, m := range ms {
-				lc.Res[m.Key] = m.Value
-				if m.Err != nil {
+// collectRefresh is called at quiescence (every call returned, the executor is idle): the single
+// message of every manual refresh must be in its channel by now. No wall-clock deadline is involved.
+// A refresh whose own loader panicked re-raises inside its executor task and promises nothing.
+func (b *burst) collectRefresh() {
+	for i := range b.calls {
+		lc := &b.calls[i]
+		if lc.own != nil && lc.own.Load() == 1 {
+			lc.OwnPanic = true
+		}
+		for n := 0; n < 3; n++ {
+			got := false
+			select {
+			case m, ok := <-lc.ch:
+				if ok {
+					got = true
+					lc.Msgs++
+					lc.Res = map[int]int{m.Key: m.Value}
 					lc.Err = errKind(m.Err)
 				}
+			case ms, ok := <-lc.bch:
+				if ok {
+					got = true
+					lc.Msgs++
+					lc.Res = map[int]int{}
+					for _, m := range ms {
+						lc.Res[m.Key] = m.Value
+						if m.Err != nil {
+							lc.Err = errKind(m.Err)
+						}
+					}
+				}
+			default:
 			}
-			return
-		case <-tick.C:
-			if own.Load() == 1 {
-				return
+			if !got {
+				break
 			}
-		case <-deadline:
-			lc.Err = "no-message"
-			return
 		}
 	}
 }
@@ -550,7 +556,7 @@ func (b *burst) judgeBurst() (violation string, overlaps int, waiters int) {
 				continue
 			}
 			if c.Msgs != 1 {
-				return fmt.Sprintf("%s(%v) by worker %d delivered %d messages within 20 s (exactly one is expected; its own loader did not panic)", c.Kind, c.Keys, c.W, c.Msgs), overlaps, waiters
+				return fmt.Sprintf("%s(%v) by worker %d: %d messages are in its channel after every call returned and the executor went idle (exactly one is expected; its own loader did not panic)", c.Kind, c.Keys, c.W, c.Msgs), overlaps, waiters
 			}
 		}
 	}
@@ -588,22 +594,21 @@ func (b *burst) probeFresh() string {
 			continue
 		}
 		done := make(chan struct{})
-		invoked := false
+		var invoked atomic.Bool
 		go func() {
 			defer close(done)
 			b.cache.Get(ctx, k, otter.LoaderFunc[int, int](func(ctx context.Context, key int) (int, error) {
-				invoked = true
+				invoked.Store(true)
 				return -1, nil
 			}))
 		}()
 		select {
 		case <-done:
-			if !invoked {
-				if _, ok := b.cache.GetEntryQuietly(k); !ok {
-					return fmt.Sprintf("after quiescence Get(%d) of an absent key returned without invoking its loader", k)
-				}
-			}
-		case <-time.After(20 * time.Second):
+			// (whether the loader ran is not judged: with a bound, asynchronous maintenance may
+			// install or evict the key between the probe's steps; a leftover record shows as a hang
+			// here or as a non-zero record count in the audit)
+			_ = invoked.Load()
+		case <-time.After(180 * time.Second):
 			return fmt.Sprintf("after quiescence Get(%d) of an absent key does not return: an in-flight record was left behind", k)
 		}
 	}
@@ -666,6 +671,7 @@ func RunC08(col *core.Collector, tier, variant string, seed uint64, shard, nshar
 		wd.Disarm()
 		otter.VerifSetHook(nil)
 		col.Eval(1)
+		b.collectRefresh()
 		v, overlaps, waiters := b.judgeBurst()
 		if v == "" {
 			wd.Arm()
